@@ -677,9 +677,8 @@ Proof.
   rewrite Gme in Gme'. inversion Gme'; subst met'.
   assert (dt' = dt).
   { clear - Hin Hin'. unfold ELEMENT_TYPES in *. cbn [In] in *.
-    repeat match goal with H : _ \/ _ |- _ => destruct H as [H|H] end; try contradiction;
-      inversion Hin; inversion Hin'; subst; try reflexivity;
-      match goal with H : K _ = K _ |- _ => try (vm_compute in H; discriminate H) end. }
+    destruct Hin as [H|[H|[H|[H|[]]]]]; destruct Hin' as [H'|[H'|[H'|[H'|[]]]]];
+      inversion H; subst; first [congruence | (vm_compute in H'; discriminate H')]. }
   subst dt'.
   assert (Kd : forall k, In k (map fst REQUIRED) -> exists v, jget kv k = Some v).
   { intros k Hk. rewrite Forall_forall in Keys. specialize (Keys k Hk). destruct (jget kv k); [eauto|contradiction]. }
